@@ -14,7 +14,7 @@ R-RES-5 fresh atom / fair label names are guarded by a membership loop over
 from ..program import AnalysisError, Inconclusive, ClassInfo
 from ..values import (Const, Sym, CRef, FRef, Bound, Obj, Tup, App, New,
                       Raise, Coll, walk)
-from ..interp import Interp, Hooks
+from ..interp import Interp, Hooks, is_private_helper
 from ..galg import GraphHooks
 from ..report import Finding, RuleResult, floor
 from . import c01, c07
@@ -162,7 +162,7 @@ class _NameHooks(GraphHooks):
         self.entry = entry
 
     def inline(self, I, fi, args):
-        return fi is self.entry
+        return fi is self.entry or is_private_helper(fi, self.entry)
 
 
 def rule_res5(prog):
